@@ -621,7 +621,8 @@ class Explorer:
                        "Gt": int(a > b), "Ge": int(a >= b), "BitAnd": a & b, "BitOr": a | b}.get(op)
         elif rv["k"] == "Aggregate" and rv["agg"]["a"] == "Tuple" and rv["ops"]:
             vs = [self._const_of(o, store) for o in rv["ops"]]
-            if all(v is not None and not isinstance(v, tuple) for v in vs):
+            vs = [None if isinstance(v, tuple) else v for v in vs]
+            if any(v is not None for v in vs):
                 val = ("T", tuple(vs))
         elif rv["k"] == "Aggregate" and rv["agg"]["a"] == "Adt" and not rv["ops"]:
             # fieldless enum variant constant: remember as ('V', adt, variant index)
